@@ -12,6 +12,7 @@ import (
 
 	"seata.apache.org/seata-go/pkg/protocol/branch"
 	"seata.apache.org/seata-go/pkg/protocol/message"
+	"seata.apache.org/seata-go/pkg/rm"
 	"seata.apache.org/seata-go/pkg/rm/tcc"
 	"seata.apache.org/seata-go/pkg/tm"
 	"seata.apache.org/seata-go/pkg/util/vshim/vtime"
@@ -115,6 +116,22 @@ type paramCase struct {
 	Expect map[string]interface{} // the tagged parameters, as JSON values
 }
 
+// Common is embedded by the parameter shapes below.
+type Common struct {
+	Tenant string
+	Shard  int
+}
+
+type pEmbTagged struct {
+	Common `tccParam:"common"`
+	A      int `tccParam:"a"`
+}
+
+type pEmbPlain struct {
+	Common
+	A int `tccParam:"a"`
+}
+
 func paramCatalogue() []paramCase {
 	seven := 7
 	return []paramCase{
@@ -134,6 +151,9 @@ func paramCatalogue() []paramCase {
 		{"ctx-direct-val", tm.BusinessActionContext{}, map[string]interface{}{}},
 		{"unicode", pUnicode{"ü\"\\\n", "<>&"}, map[string]interface{}{"clé": "ü\"\\\n", "t": "<>&"}},
 		{"big-int", pTagged{A: 1 << 53}, map[string]interface{}{"a": float64(1 << 53), "b": "", "c": 0.0, "d": false}},
+		// embedded (anonymous) exported structs: one carrying a tag is a parameter like any other field, one without is not
+		{"embedded-tagged", pEmbTagged{Common: Common{Tenant: "t1", Shard: 3}, A: 4}, map[string]interface{}{"common": map[string]interface{}{"Tenant": "t1", "Shard": 3.0}, "a": 4.0}},
+		{"embedded-untagged", pEmbPlain{Common: Common{Tenant: "t2"}, A: 5}, map[string]interface{}{"a": 5.0}},
 	}
 }
 
@@ -527,9 +547,15 @@ func evalCase(r *rep.Run, c Case, idx int) {
 				fail("success-not-reported", fmt.Sprintf("step %d (%s): the user method returned (%v, nil) but the reported status is %v (answered=%v)", n, step, actA.retOK, status, answered))
 				return
 			}
-		} else if answered && status != branch.BranchStatusPhasetwoCommitFailedRetryable && status != branch.BranchStatusPhasetwoRollbackFailedRetryable {
-			fail("failure-status", fmt.Sprintf("step %d (%s): the user method failed; reported status %v is not the retryable failure", n, step, status))
-			return
+		} else if answered {
+			var wantFail branch.BranchStatus = branch.BranchStatusPhasetwoCommitFailedRetryable
+			if op == "rollback" {
+				wantFail = branch.BranchStatusPhasetwoRollbackFailedRetryable
+			}
+			if status != wantFail {
+				fail("failure-status", fmt.Sprintf("step %d (%s): the user method failed; reported status %v is not the retryable failure of a %s (%v)", n, step, status, op, wantFail))
+				return
+			}
 		}
 	}
 }
@@ -558,4 +584,57 @@ func Run(r *rep.Run) {
 		return
 	}
 	Enumerate(thorough, func(idx int, c Case) { evalCase(r, c, idx) })
+	rmDirect(r)
+}
+
+// rmDirect: the status the TCC resource manager itself hands back for every user result (a failing manager gets no reply
+// on the wire, so its status is only visible here): committed / rollbacked iff the user method returned no error, the
+// retryable failure of that very operation otherwise.
+func rmDirect(r *rep.Run) {
+	mgr := rm.GetRmCacheInstance().GetResourceManager(branch.BranchTypeTCC)
+	for _, ret := range []string{"true-nil", "false-nil", "true-err", "false-err"} {
+		switch ret {
+		case "true-nil":
+			actA.retOK, actA.retErr = true, nil
+		case "false-nil":
+			actA.retOK, actA.retErr = false, nil
+		case "true-err":
+			actA.retOK, actA.retErr = true, fmt.Errorf("user commit/rollback failed")
+		case "false-err":
+			actA.retOK, actA.retErr = false, fmt.Errorf("user commit/rollback failed")
+		}
+		for _, op := range []string{"commit", "rollback"} {
+			res := rm.BranchResource{BranchType: branch.BranchTypeTCC, Xid: "192.168.0.1:8091:4242", BranchId: 77, ResourceId: "actA", ApplicationData: []byte(`{"actionContext":{"a":1}}`)}
+			var st branch.BranchStatus
+			var err error
+			p := catchPanic(func() {
+				if op == "commit" {
+					st, err = mgr.BranchCommit(context.Background(), res)
+				} else {
+					st, err = mgr.BranchRollback(context.Background(), res)
+				}
+			})
+			r.Eval(true)
+			r.Count("rm_direct_cases", 1)
+			want := map[string]branch.BranchStatus{"commit": branch.BranchStatusPhasetwoCommitted, "rollback": branch.BranchStatusPhasetwoRollbacked}[op]
+			if actA.retErr != nil {
+				want = map[string]branch.BranchStatus{"commit": branch.BranchStatusPhasetwoCommitFailedRetryable, "rollback": branch.BranchStatusPhasetwoRollbackFailedRetryable}[op]
+			}
+			if p != "" || st != want || (err != nil) != (actA.retErr != nil) {
+				r.Violate(fmt.Sprintf("rm-direct-status/%s/%s", op, ret), "committed/rollbacked iff the user method returned no error (retryable failure otherwise)", Located{Case: Case{Phase2: op, Ret: ret}},
+					fmt.Sprintf("%s with user result %s: the resource manager returned (%v, %v) panic=%q, expected status %v", op, ret, st, err, p, want))
+			}
+		}
+	}
+	actA.retOK, actA.retErr = true, nil
+}
+
+func catchPanic(f func()) (p string) {
+	defer func() {
+		if r := recover(); r != nil {
+			p = fmt.Sprint(r)
+		}
+	}()
+	f()
+	return ""
 }
